@@ -30,13 +30,53 @@
 // its orders in a shared-memory block whose descriptor is named in the environment, publishes (time, case, phase) before every
 // library call, and records results there, never through stdio or any object with a constructor: everything the child-side code
 // touches outside the library is constant-initialised.  A child that dies inside a library call is attributed to that call.
+//
+// AMBIENT PROCESS STATE (wave 6): "when" is not the only coordinate of a call that the statement is silent about - it also makes
+// no exception for WHICH THREAD calls or for the LC_CTYPE LOCALE the program happens to be in.  A process is therefore, in
+// general, a SCHEDULE: a sequence of steps (call time, thread, locale action); a mask is the special case "every step on the
+// main thread, locale untouched".  At a step the step's thread first performs the locale action (if any), then pushes the whole
+// input set through the library (unless the step is "set only").
+//     thread   M  the main thread                 A, B  persistent worker threads (created at their first step, alive - blocked on a
+//              F  a fresh thread, created for           semaphore - until the process ends; thread_local state survives between steps)
+//                 this one step and joined after it     All steps run strictly one after the other (handed over and awaited): no
+//                                                       concurrency, fully deterministic.
+//     locale   one of C, POSIX, C.utf8 or the 8-bit locales that check.py compiles with localedef into $LOCPATH (MANIFEST there
+//              lists name, fingerprint of the <cctype> tables, description), installed by one of
+//                 ctype : setlocale(LC_CTYPE, name)         cxx    : std::locale::global(std::locale(name))
+//                 all   : setlocale(LC_ALL, name)           thread : uselocale(newlocale(LC_CTYPE_MASK, name, 0)) - this thread only
+//     Every step records the fingerprint of the <cctype> classification (isupper .. isxdigit, toupper, tolower of all 256 values)
+//     that ITS thread sees; the step that installed a locale must see exactly that locale's tables (otherwise harness error: the
+//     part would be vacuous), the others are named after the tables they saw (glibc: a thread that already existed when another
+//     thread called setlocale keeps the old tables - the harness does not model that, it observes it).
+//
+//   SCHEDULE LISTS (MASKS argument, besides le2 / all / m:HEX)
+//     thr:N      every history of 1..N steps over {M, A, B, F} in main(), except the single step "M" (= mask m:010)   (N=3: 83)
+//     thrmom:K   K=3: threads {M, A, F}; K=4: {M, A, B, F}.  Every schedule of 1..2 steps over the 11 call times (t1 <= t2) x threads,
+//                except those with every step on M (= masks) and those with every step in main() (= thr)            (K=3: 540)
+//     loc1       one step in main() on M: every locale x every installation method                                  (14 x 4 = 56)
+//     loc2:one   two steps in main() on M, each installs a locale: every ordered pair of locales, method "all"     (196)
+//     loc2:all   ... every ordered pair of (locale, method)                                                         (3 136)
+//     locthr:N   histories of 1..N steps over {M, A, F} in main() in which exactly ONE step installs a locale (every locale x method),
+//                that step either runs the input set too or is "set only"; except the one-step history on M (= loc1)   (N=2: 38 per (locale, method))
+//     locmom:1   one step at every call time other than main() on M, installing every locale with method "all"      (10 x 14)
+//     locmom:2   locmom:1 + every pair t1 < t2: "set only" at t1, input set at t2                                    (+ 55 x 14)
+//     s:STEPS    one schedule (replay): steps joined by '+', each TIME.THREAD[.LOCALE.METHOD][!]   ('!' = set only), e.g. s:4.M.x8l1.ctype!+4.F
+//     --print    print the schedules of the list instead of running them (check.py verifies that no schedule is run twice)
+//   INPUT SETS   bytes = small + the POSITION families: decode  <k valid characters> b [YmFy]  for every byte b, k in 0..5 and 16..19;
+//                encode  <p bytes of "foo"> b <q bytes of "bar">  for every byte b, p, q in 0..2   (10 636 cases);  widebytes = wide + those.
 #include "calltime.hpp"
 
 #include "report.hpp"
 #include "C13_rfc4648.hpp"
 
+#include <cctype>
 #include <cerrno>
+#include <clocale>
 #include <fcntl.h>
+#include <locale>
+#include <locale.h>
+#include <pthread.h>
+#include <semaphore.h>
 #include <sys/mman.h>
 #include <sys/types.h>
 #include <sys/wait.h>
@@ -69,24 +109,37 @@ namespace
     const unsigned char ENC6[6] = {0x00, 0x01, 0x7F, 0x80, 0xFF, 'A'};
     const unsigned char DEC13[13] = {'A', 'z', '9', '+', '/', '=', ' ', '\n', '-', '_', 0x00, 0x80, 0xFF};
     const char HEAP_PREFIX[] = "QUJDREVGR0hJSktMTU5P";
+    const char POS_TAIL[] = "YmFy", POS_FOO[] = "foo", POS_BAR[] = "bar";
 
-    enum SegKind { SK_FULL, SK_ENC6, SK_DEC13, SK_HEAPENC, SK_HEAP13 };
-    struct Seg { bool enc; int kind; int L; int P; long count; bool wide_only; };
+    enum SegKind { SK_FULL, SK_ENC6, SK_DEC13, SK_HEAPENC, SK_HEAP13, SK_POSDEC, SK_POSENC };
+    enum { IN_ALL = 0, IN_WIDE = 1, IN_POS = 2 };   // which input sets contain the segment
+    struct Seg { bool enc; int kind; int L; int P; long count; int only; };
     const Seg SEGS[] = {
-        {true, SK_FULL, 0, 0, 1, false},       {true, SK_FULL, 1, 0, 256, false},     {true, SK_ENC6, 2, 0, 36, false},     {true, SK_ENC6, 3, 0, 216, false},
-        {true, SK_HEAPENC, 0, 0, 24, false},   // lengths 16..27 (every residue mod 3 and mod 12) x {counting from 0x78, all FF / all 80}: heap-resident inputs
-        {false, SK_FULL, 0, 0, 1, false},      {false, SK_FULL, 1, 0, 256, false},    {false, SK_DEC13, 2, 0, 169, false},  {false, SK_DEC13, 3, 0, 2197, false},
-        {false, SK_HEAP13, 0, 16, 1, false},   {false, SK_HEAP13, 1, 16, 13, false},  {false, SK_HEAP13, 0, 17, 1, false},  {false, SK_HEAP13, 1, 17, 13, false},
-        {false, SK_HEAP13, 0, 18, 1, false},   {false, SK_HEAP13, 1, 18, 13, false},  {false, SK_HEAP13, 0, 19, 1, false},  {false, SK_HEAP13, 1, 19, 13, false},
-        {true, SK_FULL, 2, 0, 65536, true},    {true, SK_ENC6, 4, 0, 1296, true},     {false, SK_FULL, 2, 0, 65536, true},  {false, SK_DEC13, 4, 0, 28561, true},
+        {true, SK_FULL, 0, 0, 1, IN_ALL},       {true, SK_FULL, 1, 0, 256, IN_ALL},     {true, SK_ENC6, 2, 0, 36, IN_ALL},     {true, SK_ENC6, 3, 0, 216, IN_ALL},
+        {true, SK_HEAPENC, 0, 0, 24, IN_ALL},   // lengths 16..27 (every residue mod 3 and mod 12) x {counting from 0x78, all FF / all 80}: heap-resident inputs
+        {false, SK_FULL, 0, 0, 1, IN_ALL},      {false, SK_FULL, 1, 0, 256, IN_ALL},    {false, SK_DEC13, 2, 0, 169, IN_ALL},  {false, SK_DEC13, 3, 0, 2197, IN_ALL},
+        {false, SK_HEAP13, 0, 16, 1, IN_ALL},   {false, SK_HEAP13, 1, 16, 13, IN_ALL},  {false, SK_HEAP13, 0, 17, 1, IN_ALL},  {false, SK_HEAP13, 1, 17, 13, IN_ALL},
+        {false, SK_HEAP13, 0, 18, 1, IN_ALL},   {false, SK_HEAP13, 1, 18, 13, IN_ALL},  {false, SK_HEAP13, 0, 19, 1, IN_ALL},  {false, SK_HEAP13, 1, 19, 13, IN_ALL},
+        {true, SK_FULL, 2, 0, 65536, IN_WIDE},    {true, SK_ENC6, 4, 0, 1296, IN_WIDE},     {false, SK_FULL, 2, 0, 65536, IN_WIDE},  {false, SK_DEC13, 4, 0, 28561, IN_WIDE},
+        // POSITION families (input sets bytes / widebytes): every byte value at every position class of a short input.
+        // decode: P valid characters, the byte b, then nothing (index b) or "YmFy" (index 256 + b): b met in every accumulator phase, at the end and mid-text, in the
+        // small-string buffer (P = 0..5) and in an exact-size heap block (P = 16..19)
+        {false, SK_POSDEC, 0, 0, 512, IN_POS},  {false, SK_POSDEC, 0, 1, 512, IN_POS},  {false, SK_POSDEC, 0, 2, 512, IN_POS},  {false, SK_POSDEC, 0, 3, 512, IN_POS},
+        {false, SK_POSDEC, 0, 4, 512, IN_POS},  {false, SK_POSDEC, 0, 5, 512, IN_POS},  {false, SK_POSDEC, 0, 16, 512, IN_POS}, {false, SK_POSDEC, 0, 17, 512, IN_POS},
+        {false, SK_POSDEC, 0, 18, 512, IN_POS}, {false, SK_POSDEC, 0, 19, 512, IN_POS},
+        // encode: P bytes of "foo", the byte b, L bytes of "bar": b as first / second / third byte of a group, in a full group and in both tail shapes
+        {true, SK_POSENC, 0, 0, 256, IN_POS},   {true, SK_POSENC, 1, 0, 256, IN_POS},   {true, SK_POSENC, 2, 0, 256, IN_POS},   {true, SK_POSENC, 0, 1, 256, IN_POS},
+        {true, SK_POSENC, 1, 1, 256, IN_POS},   {true, SK_POSENC, 2, 1, 256, IN_POS},   {true, SK_POSENC, 0, 2, 256, IN_POS},   {true, SK_POSENC, 1, 2, 256, IN_POS},
+        {true, SK_POSENC, 2, 2, 256, IN_POS},
     };
     const int N_SEGS = int(sizeof SEGS / sizeof SEGS[0]);
-    enum { SET_SMALL = 0, SET_WIDE = 1 };
+    enum { SET_SMALL = 0, SET_WIDE = 1, SET_BYTES = 2, SET_WIDEBYTES = 3 };   // bit 0: + the wide segments, bit 1: + the position families
+    bool in_set(int set, const Seg& s) { return s.only == IN_ALL || (s.only == IN_WIDE && (set & 1)) || (s.only == IN_POS && (set & 2)); }
 
     long n_cases(int set)
     {
         long n = 0;
-        for (int i = 0; i < N_SEGS; ++i) if (set == SET_WIDE || !SEGS[i].wide_only) n += SEGS[i].count;
+        for (int i = 0; i < N_SEGS; ++i) if (in_set(set, SEGS[i])) n += SEGS[i].count;
         return n;
     }
 
@@ -109,7 +162,7 @@ namespace
         for (int i = 0; i < N_SEGS; ++i)
         {
             const Seg& s = SEGS[i];
-            if (set != SET_WIDE && s.wide_only) continue;
+            if (!in_set(set, s)) continue;
             if (idx >= s.count) { idx -= s.count; continue; }
             enc = s.enc;
             if (seg_out) *seg_out = i;
@@ -127,6 +180,16 @@ namespace
                     in[k] = idx % 2 == 0 ? static_cast<unsigned char>((0x78 + k) & 255u) : static_cast<unsigned char>(len % 2 == 0 ? 0xFF : 0x80);
                 break;
             }
+            case SK_POSDEC:
+                in.assign(HEAP_PREFIX, HEAP_PREFIX + s.P);
+                in.push_back(static_cast<unsigned char>(idx & 255));
+                if (idx >= 256) in.insert(in.end(), POS_TAIL, POS_TAIL + 4);
+                break;
+            case SK_POSENC:
+                in.assign(POS_FOO, POS_FOO + s.P);
+                in.push_back(static_cast<unsigned char>(idx & 255));
+                in.insert(in.end(), POS_BAR, POS_BAR + s.L);
+                break;
             default:
                 in.assign(HEAP_PREFIX, HEAP_PREFIX + s.P);
                 digits(idx, DEC13, 13, s.L, in);
@@ -145,17 +208,31 @@ namespace
         case SK_ENC6: return "enc6:" + vf::str(s.L);
         case SK_DEC13: return "dec13:" + vf::str(s.L);
         case SK_HEAPENC: return "heapenc";
+        case SK_POSDEC: return "posdec:" + vf::str(s.P);
+        case SK_POSENC: return "posenc:" + vf::str(s.P) + ":" + vf::str(s.L);
         default: return "heap13:" + vf::str(s.P) + ":" + vf::str(s.L);
         }
     }
 
-    // ---- the block shared between the parent (enumerates masks, judges, reports) and one child (one process life) ------------
+    // ---- the block shared between the parent (enumerates schedules, judges, reports) and one child (one process life) --------
     enum { PH_NONE = 0, PH_ENCODE, PH_DECODE_OF_ENCODED, PH_DECODE };
     enum { FK_WRONG_ENCODING = 0, FK_ROUNDTRIP, FK_DECODE, FK_EXC_ENCODE, FK_EXC_ROUNDTRIP, FK_EXC_DECODE, FK_ASAN_ENCODE, FK_ASAN_DECODE, N_FK };
     enum { OBS_MAX = 96 };
+    enum { MAX_STEPS = 12, MAX_LOC = 24, LOC_NAME_MAX = 24 };
+    enum { TH_MAIN = 0, TH_A, TH_B, TH_FRESH, N_THREADS };
+    enum { LM_CTYPE = 0, LM_ALL, LM_CXX, LM_THREAD, N_LM };
+    struct Step
+    {
+        int time;       // call time 0..10
+        int thread;     // TH_*
+        int loc;        // index into Ctl::loc_name, -1 = leave the locale alone
+        int method;     // LM_*
+        int run;        // 1: push the input set through the library; 0: only install the locale
+    };
+    struct Sched { int n; Step st[MAX_STEPS]; };
     struct Fail
     {
-        int time, kind;
+        int step, kind;
         long idx;
         int obs_len, obs2_len;            // observed result (encode: the text; decode: the bytes), obs2: decode-of-encode for round-trip failures
         unsigned char obs[OBS_MAX], obs2[OBS_MAX];
@@ -163,17 +240,22 @@ namespace
     };
     struct Ctl
     {
-        unsigned mask;
+        Sched sched;
+        char loc_name[MAX_LOC][LOC_NAME_MAX];
         int set;
-        volatile int cur_time;
+        volatile int cur_step;
         volatile long cur_case;
         volatile int phase;
         int n_events;
         int order[32];
-        unsigned done_mask;
-        long long cases[N_TIMES], enc_cases[N_TIMES], nontrivial[N_TIMES], failing[N_TIMES];
+        unsigned done_mask;               // call times that have passed
+        unsigned step_done;               // steps that have completed
+        int step_locale_ok[MAX_STEPS];    // 1: the locale was installed, -1: the installation call failed, 0: no locale action
+        unsigned step_ctype[MAX_STEPS];   // fingerprint of the <cctype> tables the step's thread saw (after its locale action)
+        int thread_error;                 // pthread_create / semaphore failure: harness error
+        long long cases[MAX_STEPS], enc_cases[MAX_STEPS], nontrivial[MAX_STEPS], failing[MAX_STEPS];
         int n_fail;
-        Fail fail[N_TIMES * N_FK];
+        Fail fail[MAX_STEPS * N_FK];
     };
 
     Ctl* g_ctl = nullptr;   // constant-initialised: usable before this TU's dynamic initialisation
@@ -196,12 +278,12 @@ namespace
         return g_ctl;
     }
 
-    void add_fail(Ctl* c, int t, int kind, long idx, const std::string* obs, const std::string* obs2, const char* what)
+    void add_fail(Ctl* c, int step, int kind, long idx, const std::string* obs, const std::string* obs2, const char* what)
     {
-        for (int i = 0; i < c->n_fail; ++i) if (c->fail[i].time == t && c->fail[i].kind == kind) return;   // the first case per (time, kind); cases are ordered short first
-        if (c->n_fail >= N_TIMES * N_FK) return;
+        for (int i = 0; i < c->n_fail; ++i) if (c->fail[i].step == step && c->fail[i].kind == kind) return;   // the first case per (step, kind); cases are ordered short first
+        if (c->n_fail >= MAX_STEPS * N_FK) return;
         Fail& f = c->fail[c->n_fail];
-        f.time = t;
+        f.step = step;
         f.kind = kind;
         f.idx = idx;
         f.obs_len = obs ? int(obs->size()) : -1;
@@ -215,13 +297,12 @@ namespace
 
     bool same(const std::string& a, const bytes& b) { return a.size() == b.size() && (a.empty() || std::memcmp(a.data(), b.data(), a.size()) == 0); }
 
-    // the whole input set, now (child side)
-    void run_time(Ctl* c, int t)
+    // the whole input set, now, on the calling thread (child side)
+    void run_set(Ctl* c, int st)
     {
         const long n = n_cases(c->set);
         bytes in, expected, canon;
-        c->cur_time = t;
-        alarm(300);   // watchdog: one time = at most 164 141 short cases
+        alarm(300);   // watchdog: one step = at most 171 565 short cases
         for (long idx = 0; idx < n; ++idx)
         {
             bool enc = false;
@@ -252,36 +333,144 @@ namespace
             catch (...) { threw = true; threw_phase = c->phase; std::strncpy(what, "unknown exception", sizeof what - 1); }
             c->phase = PH_NONE;
             const bool asan = vf::take_asan();
-            c->cases[t]++;
+            c->cases[st]++;
             bool bad = false, nontrivial = false;
             if (enc)
             {
-                c->enc_cases[t]++;
+                c->enc_cases[st]++;
                 for (unsigned char b : in) if (b == 0 || b >= 0x80) nontrivial = true;
-                if (threw) { add_fail(c, t, threw_phase == PH_ENCODE ? FK_EXC_ENCODE : FK_EXC_ROUNDTRIP, idx, nullptr, nullptr, what); bad = true; }
+                if (threw) { add_fail(c, st, threw_phase == PH_ENCODE ? FK_EXC_ENCODE : FK_EXC_ROUNDTRIP, idx, nullptr, nullptr, what); bad = true; }
                 else
                 {
-                    if (asan) { add_fail(c, t, FK_ASAN_ENCODE, idx, &e, &d, nullptr); bad = true; }
-                    if (!same(e, expected)) { add_fail(c, t, FK_WRONG_ENCODING, idx, &e, &d, nullptr); bad = true; }
-                    if (!same(d, in)) { add_fail(c, t, FK_ROUNDTRIP, idx, &e, &d, nullptr); bad = true; }
+                    if (asan) { add_fail(c, st, FK_ASAN_ENCODE, idx, &e, &d, nullptr); bad = true; }
+                    if (!same(e, expected)) { add_fail(c, st, FK_WRONG_ENCODING, idx, &e, &d, nullptr); bad = true; }
+                    if (!same(d, in)) { add_fail(c, st, FK_ROUNDTRIP, idx, &e, &d, nullptr); bad = true; }
                 }
             }
             else
             {
                 ref4648::encode(expected, canon);
                 nontrivial = canon != in;
-                if (threw) { add_fail(c, t, FK_EXC_DECODE, idx, nullptr, nullptr, what); bad = true; }
+                if (threw) { add_fail(c, st, FK_EXC_DECODE, idx, nullptr, nullptr, what); bad = true; }
                 else
                 {
-                    if (asan) { add_fail(c, t, FK_ASAN_DECODE, idx, &d, nullptr, nullptr); bad = true; }
-                    if (!same(d, expected)) { add_fail(c, t, FK_DECODE, idx, &d, nullptr, nullptr); bad = true; }
+                    if (asan) { add_fail(c, st, FK_ASAN_DECODE, idx, &d, nullptr, nullptr); bad = true; }
+                    if (!same(d, expected)) { add_fail(c, st, FK_DECODE, idx, &d, nullptr, nullptr); bad = true; }
                 }
             }
-            if (nontrivial) c->nontrivial[t]++;
-            if (bad) c->failing[t]++;
+            if (nontrivial) c->nontrivial[st]++;
+            if (bad) c->failing[st]++;
         }
         alarm(0);
-        c->cur_time = -1;
+    }
+
+    // Fingerprint (FNV-1a, 32 bit) of what <cctype> says about all 256 values ON THE CALLING THREAD: class bits, toupper, tolower.
+    // check.py computes the same number from the locale definition it compiled (MANIFEST).
+    unsigned ctype_fingerprint()
+    {
+        // through volatile function pointers: g++ expands a direct isdigit() call inline to "c - '0' < 10" and would never consult the locale
+        typedef int (*fn)(int);
+        static fn volatile F[10] = {static_cast<fn>(std::isupper), static_cast<fn>(std::islower), static_cast<fn>(std::isalpha), static_cast<fn>(std::isdigit), static_cast<fn>(std::isspace),
+                                    static_cast<fn>(std::ispunct), static_cast<fn>(std::iscntrl), static_cast<fn>(std::isxdigit), static_cast<fn>(std::toupper), static_cast<fn>(std::tolower)};
+        unsigned h = 2166136261u;
+        for (int b = 0; b < 256; ++b)
+        {
+            unsigned m = 0;
+            for (int k = 0; k < 8; ++k) if (F[k](b)) m |= 1u << k;
+            const unsigned v[3] = {m, unsigned(F[8](b)) & 255u, unsigned(F[9](b)) & 255u};
+            for (int k = 0; k < 3; ++k) { h ^= v[k]; h *= 16777619u; }
+        }
+        return h;
+    }
+
+    locale_t g_keep_locale[MAX_STEPS];   // locale objects installed with uselocale stay alive (and reachable) until the process ends
+
+    void install_locale(Ctl* c, int st)
+    {
+        const Step& s = c->sched.st[st];
+        const char* name = c->loc_name[s.loc];
+        bool ok = false;
+        switch (s.method)
+        {
+        case LM_CTYPE: ok = std::setlocale(LC_CTYPE, name) != nullptr; break;
+        case LM_ALL: ok = std::setlocale(LC_ALL, name) != nullptr; break;
+        case LM_CXX:
+            try { std::locale::global(std::locale(name)); ok = true; }
+            catch (...) { ok = false; }
+            break;
+        default:
+        {
+            locale_t l = newlocale(LC_CTYPE_MASK, name, static_cast<locale_t>(0));
+            if (l) { g_keep_locale[st] = l; uselocale(l); ok = true; }
+            break;
+        }
+        }
+        c->step_locale_ok[st] = ok ? 1 : -1;
+    }
+
+    // one step, on the calling thread
+    void exec_step(Ctl* c, int st)
+    {
+        const Step& s = c->sched.st[st];
+        c->cur_step = st;
+        if (s.loc >= 0) install_locale(c, st);
+        c->step_ctype[st] = ctype_fingerprint();
+        if (s.run) run_set(c, st);
+        c->step_done |= 1u << st;
+        c->cur_step = -1;
+    }
+
+    // ---- threads: everything is handed over and awaited, so exactly one thread of the child runs at any time ----------------
+    struct Worker
+    {
+        pthread_t th;
+        sem_t go, done;
+        int started;
+        volatile int step;
+    };
+    Worker g_worker[2];   // A, B: zero-initialised, created at their first step
+
+    void sem_wait_retry(sem_t* s) { while (sem_wait(s) != 0 && errno == EINTR) {} }
+
+    void* worker_main(void* p)
+    {
+        Worker* w = static_cast<Worker*>(p);
+        for (;;)
+        {
+            sem_wait_retry(&w->go);
+            exec_step(g_ctl, w->step);
+            sem_post(&w->done);
+        }
+        return nullptr;
+    }
+    void* fresh_main(void* p)
+    {
+        exec_step(g_ctl, int(reinterpret_cast<std::intptr_t>(p)));
+        return nullptr;
+    }
+    void thread_failure(Ctl* c) { c->thread_error = 1; _exit(96); }
+
+    void dispatch(Ctl* c, int st)
+    {
+        const Step& s = c->sched.st[st];
+        if (s.thread == TH_MAIN) { exec_step(c, st); return; }
+        if (s.thread == TH_FRESH)
+        {
+            pthread_t th;
+            if (pthread_create(&th, nullptr, fresh_main, reinterpret_cast<void*>(std::intptr_t(st))) != 0) thread_failure(c);
+            if (pthread_join(th, nullptr) != 0) thread_failure(c);
+            return;
+        }
+        Worker& w = g_worker[s.thread - TH_A];
+        if (!w.started)
+        {
+            if (sem_init(&w.go, 0, 0) != 0 || sem_init(&w.done, 0, 0) != 0) thread_failure(c);
+            if (pthread_create(&w.th, nullptr, worker_main, &w) != 0) thread_failure(c);
+            w.started = 1;
+        }
+        w.step = st;
+        sem_post(&w.go);
+        sem_wait_retry(&w.done);
     }
 
     void atexit_main_handler() { probe(T_ATEXIT_MAIN); }
@@ -293,7 +482,8 @@ void c13ct::probe(int t)
     if (!c) return;   // parent / driver process: the probes of its own image do nothing
     if (c->n_events < 32) c->order[c->n_events] = t;
     c->n_events++;
-    if ((c->mask >> t) & 1u) run_time(c, t);
+    for (int i = 0; i < c->sched.n; ++i)
+        if (c->sched.st[i].time == t) dispatch(c, i);
     c->done_mask |= 1u << t;
 }
 
@@ -325,13 +515,153 @@ namespace
     std::string show(const bytes& b) { return show(b.data(), b.size()); }
     std::string show_obs(const unsigned char* p, int len) { return len < 0 ? std::string("(nothing)") : show(p, std::size_t(len < OBS_MAX ? len : OBS_MAX), len); }
 
+    // ---- locales known to this run: the three built-in ones + whatever check.py compiled into $LOCPATH (MANIFEST) ------------
+    struct Loc { std::string name, text; unsigned fp; bool compiled; };
+    std::vector<Loc> g_locs;
+    unsigned g_ascii_fp = 0;
+
+    void load_locales()
+    {
+        if (!g_locs.empty()) return;
+        g_ascii_fp = ctype_fingerprint();   // the driver itself never leaves the "C" locale
+        const char* builtin[3] = {"C", "POSIX", "C.utf8"};
+        for (int i = 0; i < 3; ++i) g_locs.push_back({builtin[i], "bytes >= 0x80 belong to no character class", g_ascii_fp, false});
+        const char* lp = std::getenv("LOCPATH");
+        if (!lp) return;
+        std::FILE* f = std::fopen((std::string(lp) + "/MANIFEST").c_str(), "r");
+        if (!f) return;
+        char line[512];
+        while (std::fgets(line, sizeof line, f))
+        {
+            char name[64];
+            unsigned fp = 0;
+            int used = 0;
+            if (std::sscanf(line, "%63s %x %n", name, &fp, &used) < 2) continue;
+            std::string text = line + used;
+            while (!text.empty() && (text.back() == '\n' || text.back() == ' ')) text.pop_back();
+            if (std::string(name) == "ascii")
+            {
+                // check.py's own idea of the "C" classification: the fingerprint function itself is cross-checked here
+                if (fp != g_ascii_fp) { std::fprintf(stderr, "C13 calltime harness: <cctype> fingerprint of the C locale is %08x, check.py expects %08x\n", g_ascii_fp, fp); std::exit(2); }
+                continue;
+            }
+            if (std::strlen(name) >= LOC_NAME_MAX || g_locs.size() >= MAX_LOC) { std::fprintf(stderr, "C13 calltime harness: bad MANIFEST entry %s\n", name); std::exit(2); }
+            g_locs.push_back({name, text, fp, true});
+        }
+        std::fclose(f);
+    }
+    int find_locale(const std::string& name)
+    {
+        for (std::size_t i = 0; i < g_locs.size(); ++i) if (g_locs[i].name == name) return int(i);
+        return -1;
+    }
+    // the locale whose tables a thread saw ("ascii" = C, POSIX and C.utf8, which classify single bytes identically); -1: unknown tables
+    int locale_by_fp(unsigned fp)
+    {
+        if (fp == g_ascii_fp) return 0;
+        for (std::size_t i = 3; i < g_locs.size(); ++i) if (g_locs[i].fp == fp) return int(i);
+        return -1;
+    }
+    std::string ctype_label(int li) { return li < 3 ? std::string("ascii") : g_locs[std::size_t(li)].name; }
+
+    // ---- schedules: text form, properties --------------------------------------------------------------------------------
+    const char THREAD_LETTER[N_THREADS] = {'M', 'A', 'B', 'F'};
+    const char* const THREAD_NAME[N_THREADS] = {"main-thread", "persistent-worker-thread", "persistent-worker-thread", "fresh-thread"};
+    const char* const THREAD_TEXT[N_THREADS] = {"the main thread", "worker thread A (created at its first step, kept alive)", "worker thread B (created at its first step, kept alive)",
+                                                "a fresh thread (created for this step, joined after it)"};
+    const char* const METHOD_NAME[N_LM] = {"ctype", "all", "cxx", "thread"};
+    const char* const METHOD_TEXT[N_LM] = {"setlocale(LC_CTYPE, ..)", "setlocale(LC_ALL, ..)", "std::locale::global(std::locale(..))", "uselocale(newlocale(LC_CTYPE_MASK, ..)) for this thread"};
+
+    bool is_plain(const Sched& s)   // a mask: main thread only, locale untouched, at most one step per call time, all of them run
+    {
+        for (int i = 0; i < s.n; ++i)
+            if (s.st[i].thread != TH_MAIN || s.st[i].loc >= 0 || !s.st[i].run || (i && s.st[i].time <= s.st[i - 1].time)) return false;
+        return true;
+    }
+    bool is_threaded(const Sched& s) { for (int i = 0; i < s.n; ++i) if (s.st[i].thread != TH_MAIN) return true; return false; }
+    bool is_localed(const Sched& s) { for (int i = 0; i < s.n; ++i) if (s.st[i].loc >= 0) return true; return false; }
+    unsigned mask_of(const Sched& s) { unsigned m = 0; for (int i = 0; i < s.n; ++i) m |= 1u << s.st[i].time; return m; }
+
+    std::string mask_hex(unsigned mask) { char b[16]; std::snprintf(b, sizeof b, "m:%03x", mask); return b; }
+    std::string sched_arg(const Sched& s)   // the replay argument
+    {
+        if (is_plain(s)) return mask_hex(mask_of(s));
+        std::string o = "s:";
+        for (int i = 0; i < s.n; ++i)
+        {
+            const Step& st = s.st[i];
+            if (i) o += "+";
+            o += vf::str(st.time) + "." + THREAD_LETTER[st.thread];
+            if (st.loc >= 0) o += "." + g_locs[std::size_t(st.loc)].name + "." + METHOD_NAME[st.method];
+            if (!st.run) o += "!";
+        }
+        return o;
+    }
+    bool parse_sched(const std::string& text, Sched& s)
+    {
+        s.n = 0;
+        std::size_t p = 0;
+        while (p <= text.size())
+        {
+            std::size_t q = text.find('+', p);
+            if (q == std::string::npos) q = text.size();
+            std::string item = text.substr(p, q - p);
+            p = q + 1;
+            if (s.n >= MAX_STEPS || item.empty()) return false;
+            Step st = {0, TH_MAIN, -1, LM_CTYPE, 1};
+            if (item.back() == '!') { st.run = 0; item.pop_back(); }
+            std::vector<std::string> part;
+            // the locale name may contain '.', (C.utf8): TIME.THREAD.<locale>.METHOD - method = text after the last '.', locale = what lies between
+            std::size_t d1 = item.find('.');
+            if (d1 == std::string::npos) return false;
+            part.push_back(item.substr(0, d1));
+            std::size_t d2 = item.find('.', d1 + 1);
+            part.push_back(item.substr(d1 + 1, d2 == std::string::npos ? std::string::npos : d2 - d1 - 1));
+            if (d2 != std::string::npos)
+            {
+                std::size_t d3 = item.rfind('.');
+                if (d3 <= d2) return false;
+                part.push_back(item.substr(d2 + 1, d3 - d2 - 1));
+                part.push_back(item.substr(d3 + 1));
+            }
+            st.time = std::atoi(part[0].c_str());
+            if (part[0].empty() || part[0].find_first_not_of("0123456789") != std::string::npos || st.time < 0 || st.time >= N_TIMES) return false;
+            st.thread = -1;
+            for (int k = 0; k < N_THREADS; ++k) if (part[1].size() == 1 && part[1][0] == THREAD_LETTER[k]) st.thread = k;
+            if (st.thread < 0) return false;
+            if (part.size() == 4)
+            {
+                st.loc = find_locale(part[2]);
+                st.method = -1;
+                for (int k = 0; k < N_LM; ++k) if (part[3] == METHOD_NAME[k]) st.method = k;
+                if (st.loc < 0 || st.method < 0) return false;
+            }
+            if (!st.run && st.loc < 0) return false;
+            if (s.n && st.time < s.st[s.n - 1].time) return false;   // steps are listed in the order in which they happen
+            s.st[s.n++] = st;
+            if (q == text.size()) break;
+        }
+        return s.n > 0;
+    }
+
     std::string mask_text(unsigned mask)
     {
         std::string s;
         for (int t = 0; t < N_TIMES; ++t) if ((mask >> t) & 1u) { if (!s.empty()) s += "; "; s += TIME_NAME[t]; }
         return s.empty() ? "never" : s;
     }
-    std::string mask_hex(unsigned mask) { char b[16]; std::snprintf(b, sizeof b, "m:%03x", mask); return b; }
+    std::string sched_text(const Sched& s)
+    {
+        std::string o;
+        for (int i = 0; i < s.n; ++i)
+        {
+            const Step& st = s.st[i];
+            o += (i ? "; " : "") + vf::str(i + 1) + ") " + TIME_NAME[st.time] + ": " + THREAD_TEXT[st.thread];
+            if (st.loc >= 0) o += std::string(" installs the locale '") + g_locs[std::size_t(st.loc)].name + "' with " + METHOD_TEXT[st.method] + (st.run ? " and" : "");
+            if (st.run) o += " runs the input set";
+        }
+        return o;
+    }
 
     std::string first_diag(int fd)
     {
@@ -362,20 +692,44 @@ namespace
                s == SIGKILL ? "SIGKILL" : "signal";
     }
 
-    std::string sig_of(unsigned mask, int t, const std::string& op, const std::string& kind)
+    // history class of step i: has the library been called before in this process, and by whom
+    bool same_thread(const Step& a, const Step& b) { return a.thread == b.thread && a.thread != TH_FRESH; }   // every F is a thread of its own
+    const char* history_class(const Sched& s, int i)
     {
-        const bool first = (mask & ((1u << t) - 1u)) == 0;
-        return std::string("C13/calltime/") + TIME_NAME[t] + (first ? ",first-call-of-process" : ",after-earlier-calls") + "/" + op + "/" + kind;
+        bool same = false, other = false;
+        for (int k = 0; k < i; ++k)
+            if (s.st[k].run) { if (same_thread(s.st[k], s.st[i])) same = true; else other = true; }
+        if (!same && !other) return "first-call-of-process";
+        if (!is_threaded(s)) return "after-earlier-calls";
+        if (same && other) return "after-calls-on-this-and-another-thread";
+        return same ? "after-earlier-calls-on-this-thread-only" : "first-call-on-this-thread-after-calls-on-another-thread";
     }
-    std::string where(unsigned mask, int t, const char* setname)
+
+    // ctype_li: the locale whose <cctype> tables the step's thread saw
+    std::string sig_of(const Sched& s, int i, int ctype_li, const std::string& op, const std::string& kind)
     {
-        return std::string("called from ") + TIME_TEXT[t] + " [process that calls the library at: " + mask_text(mask) + "; replay: --calltime " + setname + " " + mask_hex(mask) + "]";
+        std::string o = std::string("C13/calltime/") + TIME_NAME[s.st[i].time] + "," + history_class(s, i);
+        if (is_threaded(s)) o += std::string(",thread=") + THREAD_NAME[s.st[i].thread];
+        if (is_localed(s)) o += ",lc-ctype=" + ctype_label(ctype_li);
+        return o + "/" + op + "/" + kind;
+    }
+    std::string where(const Sched& s, int i, int ctype_li, const char* setname)
+    {
+        if (is_plain(s))
+            return std::string("called from ") + TIME_TEXT[s.st[i].time] + " [process that calls the library at: " + mask_text(mask_of(s)) + "; replay: --calltime " + setname + " " + sched_arg(s) + "]";
+        std::string o = std::string("called from ") + TIME_TEXT[s.st[i].time] + " on " + THREAD_TEXT[s.st[i].thread];
+        if (is_localed(s))
+            o += ", whose <cctype> classification at that moment is that of " +
+                 (ctype_li < 3 ? std::string("the C / POSIX / C.utf8 locales") : "the 8-bit locale '" + g_locs[std::size_t(ctype_li)].name + "'") + " (" + g_locs[std::size_t(ctype_li)].text + ")";
+        return o + " [step " + vf::str(i + 1) + " of the process: " + sched_text(s) + "; replay: --calltime " + setname + " " + sched_arg(s) + "]";
     }
 
     long long g_processes = 0, g_cases = 0, g_enc = 0, g_nontrivial = 0, g_failing = 0, g_lost = 0;
     long long g_time_cases[N_TIMES], g_time_first[N_TIMES], g_time_later[N_TIMES];
+    long long g_thr_processes = 0, g_thr_cases = 0, g_loc_processes = 0, g_loc_cases = 0, g_thrloc_processes = 0, g_setonly_steps = 0;
+    std::map<std::string, long long> g_extra;   // per-coordinate step / case counters of the non-plain schedules
 
-    void run_mask(int set, const char* setname, unsigned mask)
+    void run_sched(int set, const char* setname, const Sched& s)
     {
         std::fflush(stdout);
         std::fflush(stderr);
@@ -386,9 +740,10 @@ namespace
         if (m == MAP_FAILED) { std::perror("calltime: mmap"); std::exit(2); }
         Ctl* c = static_cast<Ctl*>(m);
         std::memset(c, 0, sizeof(Ctl));
-        c->mask = mask;
+        c->sched = s;
+        for (std::size_t i = 0; i < g_locs.size(); ++i) std::strncpy(c->loc_name[i], g_locs[i].name.c_str(), LOC_NAME_MAX - 1);
         c->set = set;
-        c->cur_time = -1;
+        c->cur_step = -1;
         c->cur_case = -1;
         pid_t pid = fork();
         if (pid < 0) { std::perror("fork"); std::exit(2); }
@@ -408,10 +763,12 @@ namespace
         int st = 0;
         while (waitpid(pid, &st, 0) < 0 && errno == EINTR) {}
         g_processes++;
+        const bool plain = is_plain(s), threaded = is_threaded(s), localed = is_localed(s);
+        const std::string arg = sched_arg(s);
         const unsigned all = (1u << N_TIMES) - 1u;
         bool ordered = c->n_events == N_TIMES;
         for (int i = 0; ordered && i < N_TIMES; ++i) ordered = c->order[i] == i;
-        const bool completed = WIFEXITED(st) && WEXITSTATUS(st) == 0 && c->done_mask == all;
+        const bool completed = WIFEXITED(st) && WEXITSTATUS(st) == 0 && c->done_mask == all && c->step_done == (1u << s.n) - 1u;
         if (completed && !ordered)
         {
             // the toolchain did not run initialisers / destructors / handlers in the order the time names assume: harness error, never a verdict
@@ -420,17 +777,69 @@ namespace
             std::fprintf(stderr, "C13 calltime harness: unexpected order of call times: %s(expected 0 1 2 .. 10)\n", o.c_str());
             std::exit(2);
         }
-        // counters and recorded failures (also of a child that died later: what it recorded before is kept)
-        for (int t = 0; t < N_TIMES; ++t)
+        if (c->thread_error)
         {
-            g_cases += c->cases[t];
-            g_enc += c->enc_cases[t];
-            g_nontrivial += c->nontrivial[t];
-            g_failing += c->failing[t];
-            g_time_cases[t] += c->cases[t];
-            if (c->cases[t]) { if ((mask & ((1u << t) - 1u)) == 0) g_time_first[t]++; else g_time_later[t]++; }
+            std::fprintf(stderr, "C13 calltime harness: child (%s) could not create / join a thread or semaphore\n", arg.c_str());
+            std::exit(2);
+        }
+        // which <cctype> tables did every executed step see?  (harness error if a locale could not be installed or is not the compiled one)
+        int ctype_li[MAX_STEPS];
+        for (int i = 0; i < s.n; ++i)
+        {
+            ctype_li[i] = 0;
+            const bool reached = ((c->step_done >> i) & 1u) || c->cur_step == i;
+            if (!reached) continue;
+            if (s.st[i].loc >= 0 && c->step_locale_ok[i] != 1)
+            {
+                std::fprintf(stderr, "C13 calltime harness: child (%s) could not install the locale '%s' with %s in step %d (LOCPATH=%s)\n", arg.c_str(),
+                             g_locs[std::size_t(s.st[i].loc)].name.c_str(), METHOD_TEXT[s.st[i].method], i + 1, std::getenv("LOCPATH") ? std::getenv("LOCPATH") : "(unset)");
+                std::exit(2);
+            }
+            if (!((c->step_done >> i) & 1u) && c->step_ctype[i] == 0) continue;   // died before the fingerprint was taken (inside the locale installation: reported below)
+            ctype_li[i] = locale_by_fp(c->step_ctype[i]);
+            if (ctype_li[i] < 0 || (s.st[i].loc >= 0 && c->step_ctype[i] != g_locs[std::size_t(s.st[i].loc)].fp))
+            {
+                char want[16] = "";
+                if (s.st[i].loc >= 0) std::snprintf(want, sizeof want, "%08x", g_locs[std::size_t(s.st[i].loc)].fp);
+                std::fprintf(stderr, "C13 calltime harness: child (%s), step %d: the thread's <cctype> tables have fingerprint %08x, %s%s\n", arg.c_str(), i + 1, c->step_ctype[i],
+                             s.st[i].loc >= 0 ? ("but the locale just installed, '" + g_locs[std::size_t(s.st[i].loc)].name + "', should give ").c_str() : "which is not that of any locale of this run", want);
+                std::exit(2);
+            }
+        }
+        // counters and recorded failures (also of a child that died later: what it recorded before is kept)
+        if (threaded) g_thr_processes++;
+        if (localed) g_loc_processes++;
+        if (threaded && localed) g_thrloc_processes++;
+        for (int i = 0; i < s.n; ++i)
+        {
+            const int t = s.st[i].time;
+            g_cases += c->cases[i];
+            g_enc += c->enc_cases[i];
+            g_nontrivial += c->nontrivial[i];
+            g_failing += c->failing[i];
+            g_time_cases[t] += c->cases[i];
+            if (threaded) g_thr_cases += c->cases[i];
+            if (localed) g_loc_cases += c->cases[i];
+            if (!s.st[i].run) g_setonly_steps++;
+            if (c->cases[i])
+            {
+                const std::string h = history_class(s, i);
+                if (h == "first-call-of-process") g_time_first[t]++; else g_time_later[t]++;
+                if (!plain)
+                {
+                    g_extra[std::string("ambient_steps[") + h + "]"]++;
+                    if (threaded) g_extra[std::string("ambient_cases[thread=") + THREAD_NAME[s.st[i].thread] + "]"] += c->cases[i];
+                    if (localed) g_extra["ambient_cases[lc-ctype=" + ctype_label(ctype_li[i]) + "]"] += c->cases[i];
+                }
+            }
+            if (s.st[i].loc >= 0 && ((c->step_done >> i) & 1u))
+            {
+                g_extra["ambient_locale_installed[" + g_locs[std::size_t(s.st[i].loc)].name + "]"]++;
+                g_extra[std::string("ambient_locale_installed_by[") + METHOD_NAME[s.st[i].method] + "]"]++;
+            }
         }
         bytes in, expected;
+        const std::vector<std::string> rp = {"--calltime", setname, arg};
         for (int i = 0; i < c->n_fail; ++i)
         {
             const Fail& f = c->fail[i];
@@ -439,17 +848,17 @@ namespace
             long sub = 0;
             make_case(set, f.idx, enc, in, &seg, &sub);
             const std::string cs = " {case " + std::string(enc ? "enc " : "dec ") + seg_name(seg) + " #" + vf::str(sub) + "}";
-            const std::vector<std::string> rp = {"--calltime", setname, mask_hex(mask)};
-            const std::string w = where(mask, f.time, setname);
+            const int li = ctype_li[f.step];
+            const std::string w = where(s, f.step, li, setname);
             switch (f.kind)
             {
             case FK_WRONG_ENCODING:
                 ref4648::encode(in, expected);
-                vf::violation(sig_of(mask, f.time, "base64encode", "wrong-encoding"),
+                vf::violation(sig_of(s, f.step, li, "base64encode", "wrong-encoding"),
                               "base64encode(s) for s = " + show(in) + cs + " " + w + ": RFC 4648 says " + show(expected) + ", observed " + show_obs(f.obs, f.obs_len), rp);
                 break;
             case FK_ROUNDTRIP:
-                vf::violation(sig_of(mask, f.time, "roundtrip", "decode-of-encode-differs"),
+                vf::violation(sig_of(s, f.step, li, "roundtrip", "decode-of-encode-differs"),
                               "base64decode(base64encode(s)) != s for s = " + show(in) + cs + " " + w + ": base64encode(s) = " + show_obs(f.obs, f.obs_len) + ", decoded back to " +
                                   show_obs(f.obs2, f.obs2_len), rp);
                 break;
@@ -458,7 +867,7 @@ namespace
                 ref4648::spec_decode(in, expected);
                 const std::size_t k = ref4648::leading_run(in);
                 const char* kind = std::size_t(f.obs_len) > expected.size() ? "output-too-long" : std::size_t(f.obs_len) < expected.size() ? "output-too-short" : "wrong-bytes";
-                vf::violation(sig_of(mask, f.time, "base64decode", kind),
+                vf::violation(sig_of(s, f.step, li, "base64decode", kind),
                               "base64decode(t) for t = " + show(in) + cs + " " + w + ": leading alphabet run has " + vf::str(k) + " characters, so the result must be the " +
                                   vf::str(expected.size()) + " whole bytes " + show(expected) + "; observed " + show_obs(f.obs, f.obs_len), rp);
                 break;
@@ -466,12 +875,12 @@ namespace
             case FK_EXC_ENCODE:
             case FK_EXC_ROUNDTRIP:
             case FK_EXC_DECODE:
-                vf::violation(sig_of(mask, f.time, f.kind == FK_EXC_ENCODE ? "base64encode" : f.kind == FK_EXC_ROUNDTRIP ? "roundtrip" : "base64decode", "exception"),
+                vf::violation(sig_of(s, f.step, li, f.kind == FK_EXC_ENCODE ? "base64encode" : f.kind == FK_EXC_ROUNDTRIP ? "roundtrip" : "base64decode", "exception"),
                               std::string(f.kind == FK_EXC_ENCODE ? "base64encode(s)" : f.kind == FK_EXC_ROUNDTRIP ? "base64decode(base64encode(s))" : "base64decode(t)") + " threw '" + f.what +
                                   "' for the input " + show(in) + cs + " " + w, rp);
                 break;
             default:
-                vf::violation(sig_of(mask, f.time, f.kind == FK_ASAN_ENCODE ? "roundtrip" : "base64decode", "asan-report"),
+                vf::violation(sig_of(s, f.step, li, f.kind == FK_ASAN_ENCODE ? "roundtrip" : "base64decode", "asan-report"),
                               std::string("a sanitizer reported a memory error during ") + (f.kind == FK_ASAN_ENCODE ? "base64encode(s) / base64decode(base64encode(s))" : "base64decode(t)") +
                                   " for the input " + show(in) + cs + " " + w + (first_diag(efd).empty() ? "" : " [" + first_diag(efd) + "]"), rp);
                 break;
@@ -479,14 +888,15 @@ namespace
         }
         if (!completed)
         {
-            const int t = c->cur_time, ph = c->phase;
+            const int i = c->cur_step, ph = c->phase;
             const long idx = c->cur_case;
-            if (ph == PH_NONE || t < 0 || t >= N_TIMES || idx < 0 || idx >= n_cases(set))
+            if (ph == PH_NONE || i < 0 || i >= s.n || idx < 0 || idx >= n_cases(set))
             {
-                std::fprintf(stderr, "C13 calltime harness: child (mask %s) ended abnormally outside a library call (status 0x%x, time %d, case %ld, phase %d, done 0x%x): %s\n",
-                             mask_hex(mask).c_str(), st, t, idx, ph, c->done_mask, first_diag(efd).c_str());
+                std::fprintf(stderr, "C13 calltime harness: child (%s) ended abnormally outside a library call (status 0x%x, step %d, case %ld, phase %d, times done 0x%x, steps done 0x%x): %s\n",
+                             arg.c_str(), st, i, idx, ph, c->done_mask, c->step_done, first_diag(efd).c_str());
                 std::exit(2);
             }
+            const int t = s.st[i].time;
             bool enc = false;
             int seg = 0;
             long sub = 0;
@@ -499,13 +909,13 @@ namespace
             g_time_cases[t]++;
             // the cases this process life would still have executed
             long long lost = n_cases(set) - idx - 1;
-            for (int u = t + 1; u < N_TIMES; ++u) if ((mask >> u) & 1u) lost += n_cases(set);
+            for (int u = i + 1; u < s.n; ++u) if (s.st[u].run) lost += n_cases(set);
             g_lost += lost;
-            vf::violation(sig_of(mask, t, ph == PH_ENCODE ? "base64encode" : ph == PH_DECODE_OF_ENCODED ? "roundtrip" : "base64decode", kind),
+            vf::violation(sig_of(s, i, ctype_li[i], ph == PH_ENCODE ? "base64encode" : ph == PH_DECODE_OF_ENCODED ? "roundtrip" : "base64decode", kind),
                           std::string(ph == PH_ENCODE ? "base64encode(s)" : ph == PH_DECODE_OF_ENCODED ? "base64decode(base64encode(s))" : "base64decode(t)") + " did not return for the input " +
-                              show(in) + " {case " + (enc ? "enc " : "dec ") + seg_name(seg) + " #" + vf::str(sub) + "} " + where(mask, t, setname) + ": the process was ended by " + how +
+                              show(in) + " {case " + (enc ? "enc " : "dec ") + seg_name(seg) + " #" + vf::str(sub) + "} " + where(s, i, ctype_li[i], setname) + ": the process was ended by " + how +
                               (diag.empty() ? "" : " [" + diag + "]"),
-                          {"--calltime", setname, mask_hex(mask)});
+                          rp);
         }
         munmap(m, sizeof(Ctl));
         close(cfd);
@@ -513,6 +923,160 @@ namespace
     }
 
     int popcount(unsigned m) { int n = 0; while (m) { n += int(m & 1u); m >>= 1; } return n; }
+
+    // ---- schedule lists ------------------------------------------------------------------------------------------------------
+    Step mk(int time, int thread, int loc = -1, int method = LM_CTYPE, int run = 1) { Step s = {time, thread, loc, method, run}; return s; }
+    Sched from_mask(unsigned mask)
+    {
+        Sched s;
+        s.n = 0;
+        for (int t = 0; t < N_TIMES; ++t) if ((mask >> t) & 1u) s.st[s.n++] = mk(t, TH_MAIN);
+        return s;
+    }
+    bool all_main(const Sched& s) { for (int i = 0; i < s.n; ++i) if (s.st[i].thread != TH_MAIN) return false; return true; }
+
+    // every sequence of `len` threads out of `alpha`
+    void thread_words(const std::vector<int>& alpha, int len, std::vector<std::vector<int>>& out)
+    {
+        std::vector<int> w(std::size_t(len), 0);
+        long total = 1;
+        for (int i = 0; i < len; ++i) total *= long(alpha.size());
+        for (long k = 0; k < total; ++k)
+        {
+            long r = k;
+            for (int i = len - 1; i >= 0; --i) { w[std::size_t(i)] = alpha[std::size_t(r % long(alpha.size()))]; r /= long(alpha.size()); }
+            out.push_back(w);
+        }
+    }
+
+    bool make_list(const std::string& masks, std::vector<Sched>& list)
+    {
+        const unsigned all = (1u << N_TIMES) - 1u;
+        const int NL = int(g_locs.size());
+        const std::size_t colon = masks.find(':');
+        const std::string head = masks.substr(0, colon), par = colon == std::string::npos ? "" : masks.substr(colon + 1);
+        if (masks == "all") { for (unsigned m = 0; m <= all; ++m) list.push_back(from_mask(m)); return true; }
+        if (masks == "le2") { for (unsigned m = 0; m <= all; ++m) if (popcount(m) <= 2 || m == all) list.push_back(from_mask(m)); return true; }
+        if (head == "m") { list.push_back(from_mask(unsigned(std::strtoul(par.c_str(), nullptr, 16)) & all)); return true; }
+        if (head == "s") { Sched s; if (!parse_sched(par, s)) return false; list.push_back(s); return true; }
+        if (head == "thr")
+        {
+            const int n = std::atoi(par.c_str());
+            if (n < 1 || n > 6) return false;
+            const std::vector<int> alpha = {TH_MAIN, TH_A, TH_B, TH_FRESH};
+            for (int len = 1; len <= n; ++len)
+            {
+                std::vector<std::vector<int>> words;
+                thread_words(alpha, len, words);
+                for (const auto& w : words)
+                {
+                    if (len == 1 && w[0] == TH_MAIN) continue;   // = mask m:010
+                    Sched s;
+                    s.n = len;
+                    for (int i = 0; i < len; ++i) s.st[i] = mk(T_MAIN, w[std::size_t(i)]);
+                    list.push_back(s);
+                }
+            }
+            return true;
+        }
+        if (head == "thrmom")
+        {
+            const int k = std::atoi(par.c_str());
+            if (k != 3 && k != 4) return false;
+            const std::vector<int> alpha = k == 3 ? std::vector<int>{TH_MAIN, TH_A, TH_FRESH} : std::vector<int>{TH_MAIN, TH_A, TH_B, TH_FRESH};
+            for (int t = 0; t < N_TIMES; ++t)
+                for (int th : alpha)
+                {
+                    if (t == T_MAIN || th == TH_MAIN) continue;   // main(): list thr; main thread: the masks
+                    Sched s;
+                    s.n = 1;
+                    s.st[0] = mk(t, th);
+                    list.push_back(s);
+                }
+            for (int t1 = 0; t1 < N_TIMES; ++t1)
+                for (int t2 = t1; t2 < N_TIMES; ++t2)
+                    for (int a : alpha)
+                        for (int b : alpha)
+                        {
+                            if ((t1 == T_MAIN && t2 == T_MAIN) || (a == TH_MAIN && b == TH_MAIN)) continue;
+                            Sched s;
+                            s.n = 2;
+                            s.st[0] = mk(t1, a);
+                            s.st[1] = mk(t2, b);
+                            list.push_back(s);
+                        }
+            return true;
+        }
+        if (masks == "loc1")
+        {
+            for (int l = 0; l < NL; ++l)
+                for (int m = 0; m < N_LM; ++m) { Sched s; s.n = 1; s.st[0] = mk(T_MAIN, TH_MAIN, l, m); list.push_back(s); }
+            return true;
+        }
+        if (head == "loc2")
+        {
+            if (par != "one" && par != "all") return false;
+            const int mlo = par == "one" ? LM_ALL : 0, mhi = par == "one" ? LM_ALL : N_LM - 1;
+            for (int l1 = 0; l1 < NL; ++l1)
+                for (int m1 = mlo; m1 <= mhi; ++m1)
+                    for (int l2 = 0; l2 < NL; ++l2)
+                        for (int m2 = mlo; m2 <= mhi; ++m2)
+                        {
+                            Sched s;
+                            s.n = 2;
+                            s.st[0] = mk(T_MAIN, TH_MAIN, l1, m1);
+                            s.st[1] = mk(T_MAIN, TH_MAIN, l2, m2);
+                            list.push_back(s);
+                        }
+            return true;
+        }
+        if (head == "locthr")
+        {
+            const int n = std::atoi(par.c_str());
+            if (n < 1 || n > 4) return false;
+            const std::vector<int> alpha = {TH_MAIN, TH_A, TH_FRESH};
+            for (int l = 0; l < NL; ++l)
+                for (int m = 0; m < N_LM; ++m)
+                    for (int len = 1; len <= n; ++len)
+                    {
+                        std::vector<std::vector<int>> words;
+                        thread_words(alpha, len, words);
+                        for (const auto& w : words)
+                            for (int at = 0; at < len; ++at)
+                                for (int run = 1; run >= 0; --run)
+                                {
+                                    if (len == 1 && (run == 0 || w[0] == TH_MAIN)) continue;   // nothing would be called / = loc1
+                                    Sched s;
+                                    s.n = len;
+                                    for (int i = 0; i < len; ++i) s.st[i] = i == at ? mk(T_MAIN, w[std::size_t(i)], l, m, run) : mk(T_MAIN, w[std::size_t(i)]);
+                                    list.push_back(s);
+                                }
+                    }
+            return true;
+        }
+        if (head == "locmom")
+        {
+            const int k = std::atoi(par.c_str());
+            if (k != 1 && k != 2) return false;
+            for (int l = 0; l < NL; ++l)
+            {
+                for (int t = 0; t < N_TIMES; ++t)
+                    if (t != T_MAIN) { Sched s; s.n = 1; s.st[0] = mk(t, TH_MAIN, l, LM_ALL); list.push_back(s); }
+                if (k == 2)
+                    for (int t1 = 0; t1 < N_TIMES; ++t1)
+                        for (int t2 = t1 + 1; t2 < N_TIMES; ++t2)
+                        {
+                            Sched s;
+                            s.n = 2;
+                            s.st[0] = mk(t1, TH_MAIN, l, LM_ALL, 0);
+                            s.st[1] = mk(t2, TH_MAIN);
+                            list.push_back(s);
+                        }
+            }
+            return true;
+        }
+        return false;
+    }
 }
 
 int main(int argc, char** argv)
@@ -527,6 +1091,7 @@ int main(int argc, char** argv)
     int set = -1;
     std::string setname, masks;
     long shard = 0, nshards = 1;
+    bool print_only = false;
     for (int i = 1; i < argc; ++i)
     {
         std::string a = argv[i];
@@ -534,22 +1099,39 @@ int main(int argc, char** argv)
         {
             setname = argv[i + 1];
             masks = argv[i + 2];
-            set = setname == "small" ? SET_SMALL : setname == "wide" ? SET_WIDE : -1;
+            set = setname == "small" ? SET_SMALL : setname == "wide" ? SET_WIDE : setname == "bytes" ? SET_BYTES : setname == "widebytes" ? SET_WIDEBYTES : -1;
             i += 2;
         }
         else if (a == "--shard" && i + 2 < argc) { shard = std::atol(argv[i + 1]); nshards = std::atol(argv[i + 2]); i += 2; }
+        else if (a == "--print") print_only = true;
         else { std::fprintf(stderr, "bad argument %s\n", a.c_str()); return 2; }
     }
-    if (set < 0 || nshards < 1 || shard < 0 || shard >= nshards) { std::fprintf(stderr, "usage: --calltime small|wide le2|all|m:HEX [--shard I N]\n"); return 2; }
-    const unsigned all = (1u << N_TIMES) - 1u;
-    std::vector<unsigned> list;
-    if (masks == "all") for (unsigned m = 0; m <= all; ++m) list.push_back(m);
-    else if (masks == "le2") { for (unsigned m = 0; m <= all; ++m) if (popcount(m) <= 2 || m == all) list.push_back(m); }
-    else if (masks.compare(0, 2, "m:") == 0) list.push_back(unsigned(std::strtoul(masks.c_str() + 2, nullptr, 16)) & all);
-    else { std::fprintf(stderr, "bad mask list %s\n", masks.c_str()); return 2; }
+    if (set < 0 || nshards < 1 || shard < 0 || shard >= nshards)
+    {
+        std::fprintf(stderr, "usage: --calltime small|wide|bytes|widebytes le2|all|m:HEX|thr:N|thrmom:3|thrmom:4|loc1|loc2:one|loc2:all|locthr:N|locmom:1|locmom:2|s:STEPS [--shard I N] [--print]\n");
+        return 2;
+    }
+    load_locales();
+    std::vector<Sched> list;
+    if (!make_list(masks, list)) { std::fprintf(stderr, "bad schedule list %s (locales known: %d)\n", masks.c_str(), int(g_locs.size())); return 2; }
+    bool needs_locales = false;
+    for (const Sched& s : list) if (is_localed(s)) needs_locales = true;
+    if (needs_locales && masks.compare(0, 2, "s:") != 0 && g_locs.size() <= 3)
+    {
+        std::fprintf(stderr, "C13 calltime harness: the list %s needs the compiled 8-bit locales, but $LOCPATH/MANIFEST lists none\n", masks.c_str());
+        return 2;
+    }
 
+    if (print_only)
+    {
+        for (std::size_t i = 0; i < list.size(); ++i)
+            if (long(i % std::size_t(nshards)) == shard) std::printf("@@{\"t\":\"sched\",\"v\":\"%s\"}\n", vf::jesc(sched_arg(list[i])).c_str());
+        vf::smax("calltime_locales", long(g_locs.size()));
+        vf::done();
+        return 0;
+    }
     for (std::size_t i = 0; i < list.size(); ++i)
-        if (long(i % std::size_t(nshards)) == shard) run_mask(set, setname.c_str(), list[i]);
+        if (long(i % std::size_t(nshards)) == shard) run_sched(set, setname.c_str(), list[i]);
 
     vf::stat("evaluations", g_cases);
     vf::stat("distinct_nontrivial", g_nontrivial);
@@ -566,6 +1148,11 @@ int main(int argc, char** argv)
         if (g_time_first[t]) vf::stat(std::string("calltime_processes_first_call[") + TIME_NAME[t] + "]", g_time_first[t]);
         if (g_time_later[t]) vf::stat(std::string("calltime_processes_later_call[") + TIME_NAME[t] + "]", g_time_later[t]);
     }
+    if (g_thr_processes) { vf::stat("ambient_thread_processes", g_thr_processes); vf::stat("ambient_thread_cases", g_thr_cases); }
+    if (g_loc_processes) { vf::stat("ambient_locale_processes", g_loc_processes); vf::stat("ambient_locale_cases", g_loc_cases); vf::smax("ambient_locales", long(g_locs.size())); }
+    if (g_thrloc_processes) vf::stat("ambient_thread_x_locale_processes", g_thrloc_processes);
+    if (g_setonly_steps) vf::stat("ambient_locale_set_only_steps", g_setonly_steps);
+    for (const auto& kv : g_extra) vf::stat(kv.first, kv.second);
     if (g_lost) vf::stat("not_executed_after_crash", g_lost);
     vf::done();
     return 0;
